@@ -63,10 +63,41 @@ func writeSettings(fname string, settings *settings) error {
 		return fmt.Errorf("failed to create settings directory: %w", err)
 	}
 
-	if err := os.WriteFile(fname, data, 0644); err != nil {
+	if err := writeFileAtomic(fname, data, 0644); err != nil {
 		return fmt.Errorf("failed to write settings: %w", err)
 	}
 	return nil
+}
+
+// writeFileAtomic replaces the contents of fname with data so that a reader
+// (or a restart after a crash or a failed write) finds either the complete
+// previous contents or the complete new contents, never a partial file: data
+// is written to a temporary file in the same directory, flushed to stable
+// storage, and then renamed over fname.
+func writeFileAtomic(fname string, data []byte, perm os.FileMode) (err error) {
+	tmp, err := os.CreateTemp(filepath.Dir(fname), filepath.Base(fname)+".tmp*")
+	if err != nil {
+		return err
+	}
+	defer func() {
+		if err != nil {
+			tmp.Close()
+			os.Remove(tmp.Name())
+		}
+	}()
+	if _, err = tmp.Write(data); err != nil {
+		return err
+	}
+	if err = tmp.Chmod(perm); err != nil {
+		return err
+	}
+	if err = tmp.Sync(); err != nil {
+		return err
+	}
+	if err = tmp.Close(); err != nil {
+		return err
+	}
+	return os.Rename(tmp.Name(), fname)
 }
 
 // configMenuEntry holds information for a single config menu entry.
